@@ -9,15 +9,33 @@ from .. import spec as S
 PROP = "C07"
 
 
-def check_pair(spec, ha, hb, reload_b=False):
+def reordered(spec):
+    """The same tree with the members of every keyed collection inserted in reverse order (same content)."""
+    s = dict(spec)
+    for k in ("v", "uf", "of", "nf"):
+        if k in s:
+            s[k] = reordered(s[k])
+    if "ch" in s:
+        if isinstance(s["ch"], dict):
+            s["ch"] = {k: reordered(v) for k, v in reversed(list(s["ch"].items()))}
+        else:
+            s["ch"] = [reordered(v) for v in s["ch"]]
+    return s
+
+
+def has_keyed(spec):
+    return any(n["t"] in ("Label", "UntypedLabel") for _, _, n in S.node_ids(spec))
+
+
+def check_pair(spec, ha, hb, reload_b=False, reorder_b=False):
     """One ordered pair of reachable states (given by their fill histories). Returns list of violations."""
     import histogrammar as hg
 
-    args = {"spec": spec, "ha": core.show_evs(ha), "hb": core.show_evs(hb), "reload_b": reload_b}
+    args = {"spec": spec, "ha": core.show_evs(ha), "hb": core.show_evs(hb), "reload_b": reload_b, "reorder_b": reorder_b}
     out = []
-    drv = "iadd-reloaded" if reload_b else "iadd"
+    drv = "iadd-reloaded" if reload_b else ("iadd-reordered-keys" if reorder_b else "iadd")
     a = core.mk(spec, ha)
-    b = core.mk(spec, hb)
+    b = core.mk(reordered(spec) if reorder_b else spec, hb)
     if reload_b:
         b = hg.Factory.fromJson(b.toJson())
     b0 = b.toJson()
@@ -45,7 +63,7 @@ def check_pair(spec, ha, hb, reload_b=False):
     d = C.diff(b.toJson(), b0)
     if d:
         out.append(core.v_diff(PROP, drv, "b changed by a+=b", d, b.toJson(), args))
-    if out or reload_b:
+    if out or reload_b or reorder_b:
         return out
     # continuations: keep filling b, then a; neither may leak into the other
     cont, seen = [], set()
@@ -114,6 +132,13 @@ def _tree(task):
             acc.add(vs)
             acc.n("transitions", 3 + 2 * min(3, max(1, len(ha) + len(hb))))
             acc.distinct("outcomes", FW.hkey((S.key(spec), ka, kb)))
+    # the right operand's keyed collections were built in another insertion order (same keys, same content)
+    if has_keyed(spec):
+        for ka, ha in RA.items():
+            for kb, hb in RB.items():
+                acc.n("pairs_reordered_keys")
+                acc.add(check_pair(spec, ha, hb, reorder_b=True))
+                acc.n("transitions", 2)
     # right operand reloaded from JSON (what fillsparksql passes)
     for ka, ha in list(RA.items())[:: max(1, len(RA) // 12)]:
         for kb, hb in RB.items():
@@ -144,8 +169,8 @@ def run(tier, seed):
     cov = {
         "states": states,
         "transitions": acc.c.get("transitions", 0) + acc.c.get("fill_sequences_executed", 0),
-        "traces_validated_against_impl": acc.c.get("pairs", 0) + acc.c.get("pairs_reloaded", 0),
-        "evaluations": acc.c.get("pairs", 0) + acc.c.get("pairs_reloaded", 0),
+        "traces_validated_against_impl": acc.c.get("pairs", 0) + acc.c.get("pairs_reloaded", 0) + acc.c.get("pairs_reordered_keys", 0),
+        "evaluations": acc.c.get("pairs", 0) + acc.c.get("pairs_reloaded", 0) + acc.c.get("pairs_reordered_keys", 0),
         "distinct_nontrivial": len(acc.sets.get("outcomes", ())),
         "rule": "per tree: A = all states after <=2 unit-weight fills, B = all states after <=%s fills with weights "
                 "{1,0.5} over the tree's critical-value alphabet; every ordered pair (a,b) in AxB is executed on fresh "
@@ -163,4 +188,5 @@ def run(tier, seed):
 
 
 def replay(driver, args):
-    return check_pair(args["spec"], core.unshow_evs(args["ha"]), core.unshow_evs(args["hb"]), args.get("reload_b", False))
+    return check_pair(args["spec"], core.unshow_evs(args["ha"]), core.unshow_evs(args["hb"]), args.get("reload_b", False),
+                      args.get("reorder_b", False))
